@@ -106,6 +106,15 @@ func (env *specEnv) eval(e Expr) SVal {
 	case *ENil:
 		return SVal{T: tNil}
 	case *EIdent:
+		if _, isParam := env.f.params[x.Name]; isParam && env.resolve != nil && env.f.top {
+			// a parameter that is reassigned in the body: at a program point the name denotes the
+			// current value of the variable (old(x) / lets give access to the entry value)
+			if pv, same := env.vars[x.Name]; same && pv.T.S == env.f.params[x.Name].T.S {
+				if v, ok := env.resolve(x.Name); ok {
+					return v
+				}
+			}
+		}
 		if v, ok := env.vars[x.Name]; ok {
 			return v
 		}
@@ -178,7 +187,15 @@ func (env *specEnv) eval(e Expr) SVal {
 		if !x.Forall {
 			op = "exists"
 		}
-		return SVal{T: Term{fmt.Sprintf("(%s (%s) %s)", op, strings.Join(binds, " "), body.T.S), SBool}}
+		bs := body.T.S
+		if len(x.Triggers) > 0 {
+			var ts []string
+			for _, t := range x.Triggers {
+				ts = append(ts, n.eval(t).T.S)
+			}
+			bs = fmt.Sprintf("(! %s :pattern (%s))", bs, strings.Join(ts, " "))
+		}
+		return SVal{T: Term{fmt.Sprintf("(%s (%s) %s)", op, strings.Join(binds, " "), bs), SBool}}
 	}
 	specFail("cannot evaluate spec expression %T", e)
 	return SVal{}
